@@ -77,6 +77,32 @@ void h_tbprobe(void) {
     END();
 }
 
+// ---- O1b: the two inline entry points the search calls (tbprobe.hpp:184-215): with no external tablebase files (maxPieces = 4, as TBProbe::initialize sets
+//      it) every position of 2..4 men reaches the on-demand probe at any search depth, a position of 5 or more men never does
+static int gMen;
+int model_nPieces(const Position* self) { return gMen; }
+void h_tbprobe_entry(void) {
+    Position& pos = posBox.obj;
+    const TranspositionTable& tt = ttBox.obj;
+    bool withDepth = (verif_param() & 1) != 0;
+    gMen = (int)(verif_param() >> 1);                    // case split: 2..5 men (Position::nPieces = popcount of the occupancy: stubbed to this constant)
+    gtbMaxPieces = 0; Syzygy::TBLargest = 0; TBProbeData::maxPieces = 4;
+    int ply = nondet_int(), hmc = nondet_int(), alpha = nondet_int(), beta = nondet_int(), depth = nondet_int();
+    ASSUME(ply >= 0 && ply <= 200 && hmc >= 0 && hmc <= 99 && depth >= -10 && depth <= 200);
+    ASSUME(alpha >= -32000 && alpha <= 32000 && beta >= -32000 && beta <= 32000 && alpha < beta);
+    pos.halfMoveClock = hmc;
+    stub_found = true; stub_kind = nondet_int(); stub_n = nondet_int();
+    ASSUME(stub_kind >= 0 && stub_kind <= 2 && stub_n >= 0 && stub_n <= 100);
+    if (stub_kind == 0) ASSUME(stub_n >= 1);
+    TTEntry ent(nondet_u64(), nondet_u64());
+    int nodes = 0;
+    bool r = withDepth ? TBProbe::tbProbe(pos, ply, alpha, beta, depth, tt, ent, nodes) : TBProbe::tbProbe(pos, ply, alpha, beta, tt, ent);   // real
+    verif_observe(r);
+    if (gMen <= 4) CHECK(r, "a position of up to four men is looked up in the on-demand table, at every search depth");
+    else CHECK(!r, "more men than any available table: no probe");
+    END();
+}
+
 // wrapper used by the search: nPieces from the position, DTZ allowed; same on-demand branch
 void h_swindle(void) {
     int ev = nondet_int(), d = nondet_int(), ev2 = nondet_int(), d2 = nondet_int();
